@@ -147,7 +147,7 @@ EXTRA = {
     'C08': ' restart_reader_for aborts the replaced reader task (a dropped handle detaches: explicit drop obligation) and never overwrites a live handle; every link whose retry is due leaves the housekeeping tick with clean accounting whatever the socket re-open did; RttTracker / Kalman / Ewma / BitrateTracker reset are verified bodies; the runtime timeout setter stores the clamped value.',
     'C09': ' The reader task (body of the tokio::spawn in spawn_reader, verified as if run in place): every non-empty datagram of a received batch is relayed unchanged, in order, under the id of its link. Every return of handle_uplink_packet (also one a change adds) satisfies: a non-empty datagram of a known uplink has reached the uplink parser. REG3 handling leaves the delivery-proof stamp, the RTT tracker and the keepalive clock alone.',
     'C11': ' in_flight_cap_packets, the quality multiplier and the RTT bonus are verified against explicit spec functions over uninterpreted float operations (the documented formulas: which constants, operations and operands); the dispatcher hands the previous choice to the enhanced selector unchanged; every routed packet becomes the hysteresis anchor.',
-    'C12': ' lemma_quality_ignores_stall_history: the quality factor is a function of age, NAK history and smoothed RTT only, so two links differing only in stall history score the same (proved from the spec function the real body is verified against); with the guard off no flag or latch is left when a packet is routed.',
+    'C12': ' lemma_quality_ignores_stall_history: the quality factor is a function of age, NAK history and smoothed RTT only, so two links differing only in stall history score the same (proved from the spec function the real body is verified against); lemma_soft_cap_ignores_stall_history: the same for the soft-cap factor (a function of CC target and measured bitrate only, real body verified against spec_soft_cap); with the guard off no flag or latch is left when a packet is routed.',
     'C14': ' REG3 handling and reset_for_reconnect leave the keepalive cadence clock alone; RttTracker::reset (verified body) cancels the outstanding probe.',
     'C17': ' The throughput measurement restarts from zero on every reconnect (BitrateTracker::reset); REG_ERR disconnects the link.',
     'C18': ' ErrorObject::new with a char-boundary panic model for String::truncate / split_off; the serde derive attributes of Request are audited (serde itself is trusted, its configuration is not).',
